@@ -4,7 +4,7 @@ import ast
 from ..core.model import AnchorError, FuncInfo
 from ..core.cfg import walk_shallow, cfg_of
 from ..core.facts import U, atoms_of
-from ..engine import fn_name, kwarg, local_defs, returns_of, stmts_in
+from ..engine import argn, fn_name, kwarg, local_defs, returns_of, stmts_in, vars_assigned_from
 from . import common, c01
 
 EXPLANATION = (
@@ -126,7 +126,7 @@ def s4(ctx, rep):
     if ok:
         tv = U(loops[0].target)
         dels = [x for x in walk_shallow(loops[0]) if isinstance(x, ast.Call) and fn_name(x) == "delete_checkpoint"]
-        ok = len(dels) == 1 and U(dels[0].args[0]) == tv
+        ok = len(dels) == 1 and U(argn(dels[0], 0)) == tv
     rep.put(ok, "S4", "taint", "RemoveCheckpointsCallback.on_loop_end deletes exactly the ids the scheduler released", f, None, "")
     c = P.cls("SynchronousHyperbandScheduler")
     attr = "_trials_checkpoints_can_be_removed"
@@ -138,7 +138,7 @@ def s4(ctx, rep):
     ext = [x for x in walk_shallow(g.node) if isinstance(x, ast.Call) and fn_name(x) == "extend" and attr in U(x.func.value)]
     ok = len(ext) == 1
     if ok:
-        v = U(ext[0].args[0])
+        v = U(argn(ext[0], 0))
         ds = [d for d in local_defs(g, v) if not isinstance(d, tuple)]
         ok = len(ds) == 1 and isinstance(ds[0], ast.Call) and fn_name(ds[0]) == "on_result" and "bracket_manager" in U(ds[0].func)
     rep.put(ok, "S4", "taint", "SynchronousHyperbandScheduler._on_result lists only what bracket_manager.on_result returned", g, None, "")
@@ -197,7 +197,7 @@ def gtl_partition(ctx, rep, t, clause):
             # exclusion set derived from the promoted list: set(top_list) - and not stale
             dn = [n for n in cfg.nodes if n.kind == "stmt" and isinstance(n.ast, ast.Assign) and U(n.ast.targets[0]) == excl]
             ok = len(dn) == 1 and isinstance(dn[0].ast.value, ast.Call) and fn_name(dn[0].ast.value) in ("set", "frozenset") \
-                and U(dn[0].ast.value.args[0]) == top
+                and U(argn(dn[0].ast.value, 0)) == top
             why = f"exclusion set `{excl}` is not set({top})"
             if ok:
                 fw = cfg.reachable([s_ for s_, l in cfg.succ[dn[0].id]])
@@ -220,9 +220,9 @@ def s5(ctx, rep):
     cons = c.methods["_suggest"]
     # producer: what is parked
     app = [x for x in walk_shallow(prod.node) if isinstance(x, ast.Call) and fn_name(x) in ("append", "appendleft") and queue in U(x.func.value)]
-    if len(app) != 1 or not isinstance(app[0].args[0], ast.Tuple):
+    if len(app) != 1 or not isinstance(argn(app[0], 0), ast.Tuple):
         raise AnchorError("PBT.on_trial_result: parking of (source id, config) on the decision stack not recognised")
-    src_var = U(app[0].args[0].elts[0])
+    src_var = U(argn(app[0], 0).elts[0])
     # the source is selected among trials that are not stopped
     q = c.methods["_quantiles"]
     sel_ok = any(isinstance(n, ast.If) and any(a[0] == "truth" and a[1].endswith("." + flag) and a[2] is False for a in atoms_of(n.test, True))
@@ -236,6 +236,22 @@ def s5(ctx, rep):
             "delete_checkpoints=True) keeps its score and is chosen as the trial to clone from")
     if not sel_ok:
         return
+    # the flag says what the filter takes it to say: whenever the scheduler answers STOP for a trial (the backend then deletes
+    # its checkpoint), that trial's state has been marked before
+    cp = cfg_of(prod)
+    stops = [n.id for n in cp.nodes if n.kind == "stmt" and isinstance(n.ast, ast.Return) and n.ast.value is not None
+             and U(n.ast.value).endswith("SchedulerDecision.STOP")]
+    sts = vars_assigned_from(prod, lambda e: isinstance(e, ast.Subscript) and U(e.value).endswith("._trial_state"))
+    marks = {n.id for n in cp.nodes if n.kind == "stmt" and isinstance(n.ast, ast.Assign) and isinstance(n.ast.value, ast.Constant)
+             and n.ast.value.value is True and any(isinstance(t, ast.Attribute) and t.attr == flag and (U(t.value) in sts or "_trial_state[" in U(t.value))
+                                                   for t in n.ast.targets)}
+    if not stops:
+        raise AnchorError("PBT.on_trial_result: no `return SchedulerDecision.STOP` found")
+    for sid in stops:
+        unmarked = cp.path([cp.entry], sid, deleted=marks, skip_labels=("exc",)) is not None
+        rep.put(not unmarked, "S5", "must_precede", f"PopulationBasedTraining.on_trial_result: `{flag} = True` precedes every STOP decision", prod,
+                cp.nodes[sid].ast, "", f"a path answers STOP without marking the trial as {flag}: the backend deletes the checkpoint of a stopped trial, "
+                "but the trial keeps its score in _quantiles and can be drawn as the trial to clone the next one from")
     # consumer: pop and use as checkpoint_trial_id
     pops = [x for x in walk_shallow(cons.node) if isinstance(x, ast.Call) and fn_name(x) in ("pop", "popleft") and queue in U(x.func.value)]
     if len(pops) != 1:
